@@ -319,7 +319,8 @@ def check_c12(tier, seed):
     """All call histories up to a length bound over a small universe of strings, then a query."""
     fails = []
     cases = 0
-    universe = ["4x + 2", "4x  +  2", "sgn(x)", "s g n(x)", "s gn(x)", "42", "4 2", "4+", "(4x", "1.5x", "1 .5x", "x = 2", ")4+2", "2x^"]
+    # the last three fail inside the TOKENIZER, after some valid tokens (unsupported character / not first / last)
+    universe = ["4x + 2", "4x  +  2", "sgn(x)", "s g n(x)", "s gn(x)", "42", "4 2", "4+", "(4x", "1.5x", "1 .5x", "x = 2", ")4+2", "2x^", "7y - $", "5b + # + 1", "$"]
     ops = [("parse", s) for s in universe] + [("tokenize", s) for s in universe] + [("clear", None)]
     hlen = 2 if tier == "quick" else 3
 
